@@ -40,6 +40,7 @@ def body(run):
         mbm, nblocks = fz.pick_block_mem(pair['src_fn'], pair['ref_fn'], 'auto', run.scale(6, 12), kshape)
         kw = dict(model=model, kernel_shape=kshape, proc_crs='auto', max_block_mem=mbm, param=True, reuse=True)
         desc0 = dict(geom=g.describe(), model=model, blocks=nblocks, max_block_mem=mbm)
+        clean = ic.digest(fz.fuse(pair['src_fn'], pair['ref_fn'], run.work / 'clean.tif', model=model, kernel_shape=kshape, max_block_mem=mbm, param=True, threads=1))
         sites = [(role, k) for role in ('src', 'ref', 'corr', 'param') for k in range(nblocks)]
         if not run.thorough:
             sites = [s for i, s in enumerate(sites) if i % 2 == gi % 2 or s[1] in (0, nblocks - 1)]
@@ -69,6 +70,10 @@ def body(run):
                     problems['locks_free'] = False
                 if r['reuse'] != 'ok':
                     problems['second process() on the same object'] = r['reuse']
+                elif r['result'] is not None and ic.digest(r['result']) != clean:
+                    # it returned normally, so every block of every band must have been processed and written
+                    problems['second process() on the same object returned normally with another result than a fault-free run'] = \
+                        dict(valid_pixels=int(r['result']['corr']['mask'].sum()))
                 if r['reader_closed'] is not True:
                     problems['reader_closed'] = r['reader_closed']
                 if problems:
@@ -96,7 +101,16 @@ def body(run):
             for k in (0, nblocks - 1):
                 for threads in (2, 4):
                     r = ic.run_compare(pair['src_fn'], pair['ref_fn'], rng=random.Random(k), threads=threads, fault=dict(role=role, op='*', k=k),
-                                       max_block_mem=mbm, timeout=60)
+                                       max_block_mem=mbm, timeout=60, reuse=True)
+                    if r['rec'].fault_fired and r['outcome'].startswith('raise:'):
+                        fresh = fz.compare(pair['src_fn'], pair['ref_fn'], threads=1, max_block_mem=mbm)['stats']
+                        same = r['reuse'] == 'ok' and r['reuse_stats'].keys() == fresh.keys() and all(
+                            r['reuse_stats'][b]['n'] == fresh[b]['n'] and abs(r['reuse_stats'][b]['rmse'] - fresh[b]['rmse']) <= 1e-4 * (1 + abs(fresh[b]['rmse']))
+                            for b in fresh if not (fresh[b]['rmse'] != fresh[b]['rmse']))
+                        if not same:
+                            run.add_violation('compare: the same object gives another result after a failed call', dict(desc0, fault=dict(role=role, k=k), threads=threads),
+                                              expected={b: fresh[b]['n'] for b in fresh}, observed=dict(reuse=r['reuse'], n=None if r['reuse_stats'] is None else {b: r['reuse_stats'][b]['n'] for b in r['reuse_stats']}),
+                                              signature=dict(kind='fault-compare-reuse'))
                     dist['compare'] = dist.get('compare', 0) + 1
                     run.count_case(('cmp', gi, role, k, threads), True, None)
                     if r['rec'].fault_fired and not (r['outcome'].startswith('raise:') and r['files_closed'] and r['locks_free']):
